@@ -171,7 +171,7 @@ func (g *genState) pickMsg() int64 {
 }
 
 func (g *genState) byzVariant() int64 {
-	return int64(1 + g.r.Intn(12))
+	return int64(1 + g.r.Intn(13))
 }
 
 func (g *genState) member(set []int) int64 {
@@ -433,7 +433,18 @@ func genAggregation(g *genState, prop string) {
 	}
 	rounds := 1 + r.Intn(4)
 	for i := 0; i < rounds; i++ {
-		switch r.Pick(8, 2, 1, 2, 1) {
+		switch r.Pick(8, 2, 1, 2, 1, 1) {
+		case 5:
+			// a message is published; some minutes later (well inside the hour for which a published
+			// entry is remembered) the whole network re-observes it and every guardian signs again
+			m := g.pickMsg()
+			g.campaign(m, 0)
+			g.add("tick", int64(30*time.Second), int64(r.Range(11, 100)), 0, 0, "")
+			g.add("msg", m, 0, 0, 0, "")
+			g.add("loop", 0, 0, 0, 0, "")
+			for _, k := range g.curSet() {
+				g.add("obs", int64(k), m, 0, 0, "")
+			}
 		case 0:
 			g.campaign(g.pickMsg(), noise)
 		case 1: // peer VAA first, then own campaign (late observation)
@@ -505,7 +516,7 @@ func genC13(g *genState) {
 			}
 			g.add("msg", m, 0, 0, 0, "")
 		case 1:
-			g.add("obs", int64(r.Intn(nKeys)), m, int64(r.Intn(13)), int64(r.Intn(64)), "")
+			g.add("obs", int64(r.Intn(nKeys)), m, int64(r.Intn(14)), int64(r.Intn(64)), "")
 		case 2:
 			g.inbound(m)
 		case 3:
